@@ -5,6 +5,7 @@
   C01 / C02 theorems instantiated at byte-row cells; this file proves the bit-level facts.
 -/
 import HealSparse.Model.WideMask
+import HealSparse.Lemmas.WideMask
 namespace HS
 namespace C13
 
@@ -13,65 +14,129 @@ def IsRow (row : List Nat) (n : Nat) : Prop := row.length = n ∧ ∀ x ∈ row,
 
 /-- width rule of make_empty: `nbytes = (maxbits-1)/8 + 1` holds every requested bit -/
 theorem width_rule (maxbits : Nat) (h : 1 ≤ maxbits) : maxbits ≤ 8 * ((maxbits - 1) / 8 + 1) := by
-  sorry
+  omega
 
 /-- geometry width (after the fix): `maxbits = max(bits)+1` bytes hold every bit of the shape -/
 theorem geom_width_enough (bits : List Nat) (b : Nat) (hb : b ∈ bits) :
     b < 8 * ((bits.foldl max 0 + 1 - 1) / 8 + 1) := by
-  sorry
+  have h := WideMask.le_foldl_max bits 0 b hb
+  omega
 
 /-- `_bitvals_to_packed_array` produces a row of `maxbits/8` bytes … -/
 theorem pack_isRow (bits : List Nat) (maxbits : Nat) :
     IsRow (bitvalsToPacked bits maxbits) (maxbits / 8) := by
-  sorry
+  exact ⟨WideMask.length_bitvalsToPacked bits maxbits,
+    fun x hx => WideMask.lt_of_mem_bitvalsToPacked bits maxbits x hx⟩
 
 /-- … whose set bits are exactly the listed positions (including 7, 8, 15, 16, …). -/
 theorem pack_testBit (bits : List Nat) (maxbits b : Nat) (hb : b < 8 * (maxbits / 8)) :
     rowTestBit (bitvalsToPacked bits maxbits) b = bits.contains b := by
-  sorry
+  exact WideMask.rowTestBit_bitvalsToPacked bits maxbits b hb
 
 /-- set_bits: `S' = S ∪ bits` -/
 theorem set_bits_spec (row : List Nat) (bits : List Nat) (n b : Nat) (hr : IsRow row n) (hb : b < 8 * n) :
     rowTestBit (List.zipWith (· ||| ·) row (bitvalsToPacked bits (8 * n))) b
       = (rowTestBit row b || bits.contains b) := by
-  sorry
+  have hdiv : 8 * n / 8 = n := Nat.mul_div_cancel_left n (by decide)
+  have hi : b / 8 < n := by omega
+  have hp : b / 8 < (bitvalsToPacked bits (8 * n)).length := by
+    rw [WideMask.length_bitvalsToPacked, hdiv]; exact hi
+  have hpk : rowTestBit (bitvalsToPacked bits (8 * n)) b = bits.contains b :=
+    WideMask.rowTestBit_bitvalsToPacked bits (8 * n) b (by rw [hdiv]; exact hb)
+  rw [WideMask.rowTestBit_zipWith (· ||| ·) (· || ·) (fun x y j => Nat.testBit_or x y j)
+    row _ b (by rw [hr.1]; exact hi) hp, hpk]
 
 /-- clear_bits: `S' = S \ bits` -/
 theorem clear_bits_spec (row : List Nat) (bits : List Nat) (n b : Nat) (hr : IsRow row n) (hb : b < 8 * n) :
     rowTestBit (List.zipWith (· &&& ·) row (complBytes (bitvalsToPacked bits (8 * n)))) b
       = (rowTestBit row b && !bits.contains b) := by
-  sorry
+  have hdiv : 8 * n / 8 = n := Nat.mul_div_cancel_left n (by decide)
+  have hi : b / 8 < n := by omega
+  have hp : b / 8 < (bitvalsToPacked bits (8 * n)).length := by
+    rw [WideMask.length_bitvalsToPacked, hdiv]; exact hi
+  have hpk : rowTestBit (bitvalsToPacked bits (8 * n)) b = bits.contains b :=
+    WideMask.rowTestBit_bitvalsToPacked bits (8 * n) b (by rw [hdiv]; exact hb)
+  rw [WideMask.rowTestBit_zipWith (· &&& ·) (· && ·) (fun x y j => Nat.testBit_and x y j)
+    row _ b (by rw [hr.1]; exact hi) (by rw [WideMask.length_complBytes]; exact hp),
+    WideMask.rowTestBit_complBytes _ b hp (WideMask.lt_of_mem_bitvalsToPacked bits (8 * n)), hpk]
 
 /-- xor with a bit list: symmetric difference -/
 theorem xor_bits_spec (row : List Nat) (bits : List Nat) (n b : Nat) (hr : IsRow row n) (hb : b < 8 * n) :
     rowTestBit (List.zipWith (· ^^^ ·) row (bitvalsToPacked bits (8 * n))) b
       = (rowTestBit row b != bits.contains b) := by
-  sorry
+  have hdiv : 8 * n / 8 = n := Nat.mul_div_cancel_left n (by decide)
+  have hi : b / 8 < n := by omega
+  have hp : b / 8 < (bitvalsToPacked bits (8 * n)).length := by
+    rw [WideMask.length_bitvalsToPacked, hdiv]; exact hi
+  have hpk : rowTestBit (bitvalsToPacked bits (8 * n)) b = bits.contains b :=
+    WideMask.rowTestBit_bitvalsToPacked bits (8 * n) b (by rw [hdiv]; exact hb)
+  rw [WideMask.rowTestBit_zipWith (· ^^^ ·) (· != ·) (fun x y j => Nat.testBit_xor x y j)
+    row _ b (by rw [hr.1]; exact hi) hp, hpk]
 
 /-- and with a bit list: intersection -/
 theorem and_bits_spec (row : List Nat) (bits : List Nat) (n b : Nat) (hr : IsRow row n) (hb : b < 8 * n) :
     rowTestBit (List.zipWith (· &&& ·) row (bitvalsToPacked bits (8 * n))) b
       = (rowTestBit row b && bits.contains b) := by
-  sorry
+  have hdiv : 8 * n / 8 = n := Nat.mul_div_cancel_left n (by decide)
+  have hi : b / 8 < n := by omega
+  have hp : b / 8 < (bitvalsToPacked bits (8 * n)).length := by
+    rw [WideMask.length_bitvalsToPacked, hdiv]; exact hi
+  have hpk : rowTestBit (bitvalsToPacked bits (8 * n)) b = bits.contains b :=
+    WideMask.rowTestBit_bitvalsToPacked bits (8 * n) b (by rw [hdiv]; exact hb)
+  rw [WideMask.rowTestBit_zipWith (· &&& ·) (· && ·) (fun x y j => Nat.testBit_and x y j)
+    row _ b (by rw [hr.1]; exact hi) hp, hpk]
 
 /-- the bytes stay bytes under set / clear / xor (so the row invariant is preserved) -/
 theorem ops_preserve_isRow (row : List Nat) (bits : List Nat) (n : Nat) (hr : IsRow row n) :
     IsRow (List.zipWith (· ||| ·) row (bitvalsToPacked bits (8 * n))) n ∧
     IsRow (List.zipWith (· &&& ·) row (complBytes (bitvalsToPacked bits (8 * n)))) n ∧
     IsRow (List.zipWith (· ^^^ ·) row (bitvalsToPacked bits (8 * n))) n := by
-  sorry
+  have hdiv : 8 * n / 8 = n := Nat.mul_div_cancel_left n (by decide)
+  have hpl : (bitvalsToPacked bits (8 * n)).length = n := by
+    rw [WideMask.length_bitvalsToPacked, hdiv]
+  have hpb := WideMask.lt_of_mem_bitvalsToPacked bits (8 * n)
+  refine ⟨⟨?_, ?_⟩, ⟨?_, ?_⟩, ⟨?_, ?_⟩⟩
+  · simp [hr.1, hpl]
+  · exact WideMask.lt_of_mem_zipWith _ _ _
+      (fun x y hx hy => Nat.or_lt_two_pow (n := 8) hx hy) hr.2 hpb
+  · simp [hr.1, hpl, WideMask.length_complBytes]
+  · exact WideMask.lt_of_mem_zipWith _ _ _
+      (fun x y _ hy => Nat.and_lt_two_pow (n := 8) x hy) hr.2 (WideMask.lt_of_mem_complBytes _)
+  · simp [hr.1, hpl]
+  · exact WideMask.lt_of_mem_zipWith _ _ _
+      (fun x y hx hy => Nat.xor_lt_two_pow (n := 8) hx hy) hr.2 hpb
 
 /-- check_bits: true iff the pixel's set meets the bit list -/
 theorem check_bits_spec (row : List Nat) (bits : List Nat) (n : Nat) (hr : IsRow row n)
     (hbits : ∀ b ∈ bits, b < 8 * n) :
     (List.zipWith (· &&& ·) row (bitvalsToPacked bits (8 * n))).any (· != 0)
       = bits.any (fun b => rowTestBit row b) := by
-  sorry
+  have hdiv : 8 * n / 8 = n := Nat.mul_div_cancel_left n (by decide)
+  have hpl : (bitvalsToPacked bits (8 * n)).length = n := by
+    rw [WideMask.length_bitvalsToPacked, hdiv]
+  have hlen : (List.zipWith (· &&& ·) row (bitvalsToPacked bits (8 * n))).length = n := by
+    simp [hr.1, hpl]
+  have hlt := WideMask.lt_of_mem_zipWith (· &&& ·) row (bitvalsToPacked bits (8 * n))
+      (fun x y _ hy => Nat.and_lt_two_pow (n := 8) x hy) hr.2
+      (WideMask.lt_of_mem_bitvalsToPacked bits (8 * n))
+  rw [WideMask.any_ne_zero_eq _ hlt, hlen, Bool.eq_iff_iff]
+  simp only [List.any_eq_true, List.mem_range]
+  constructor
+  · rintro ⟨b, hb, h⟩
+    rw [and_bits_spec row bits n b hr hb] at h
+    simp only [Bool.and_eq_true] at h
+    exact ⟨b, by simpa using h.2, h.1⟩
+  · rintro ⟨b, hb, h⟩
+    refine ⟨b, hbits b hb, ?_⟩
+    rw [and_bits_spec row bits n b hr (hbits b hb)]
+    simp [h, hb]
 
 /-- a pixel is valid iff its set is non-empty -/
 theorem valid_iff_nonempty (row : List Nat) (n : Nat) (hr : IsRow row n) :
     row.any (· != 0) = (List.range (8 * n)).any (fun b => rowTestBit row b) := by
-  sorry
+  have h := WideMask.any_ne_zero_eq row hr.2
+  rw [hr.1] at h
+  exact h
 
 /-- non-vacuity / byte-boundary witnesses -/
 example : bitvalsToPacked [0, 7, 8, 16] 24 = [129, 1, 1] := by decide
